@@ -16,17 +16,28 @@ PROP = {'streams': [('c17', 1000, 100000)],
               'manifest_sound_partial',
               'response_sliced_partial',
               'decision_sliced_partial',
+              'slicer_meets_spec',
+              'slice_is_substore',
+              'slicer_needs_agreeing_annotations',
+              'manifest_sound_sliced',
+              'response_sliced_static',
+              'decision_sliced_static',
+              'full_statement_of_fragment',
               'typed_false_environment_breaks_slicing'],
  'assumptions': ['manifest_sound_partial / response_sliced_partial are PROVED ONLY FOR THE FRAGMENT `Cedar.Manifest.InFrag` (literals, variables, . and '
                  'has chains through records and entities, && || !, if (also producing entities/records that are then dereferenced), unary -, isEmpty, '
                  '== < <= + - *, in (with the ancestors-required tries), contains containsAll containsAny, like, is) under the side condition SafeOps (operands of binary operators are not records in the full store - implied by '
                  'non-record operand types + type soundness, C03) and for requests whose context has unique keys (CtxWF); == / contains on records, '
                  'record / set literals, extension calls are covered by the differential run and the implementation-level property only',
-                 'the theorems assume the slice satisfies SubStore + CoverRoots (the specification of a slice); that the slicer meets it '
-                 '(`SlicerMeetsSpec`) is NOT proved: it is checked by sound executable checkers (Lemmas/ManifestCheck.lean) on every sampled slice '
-                 '(driver op mspec)',
+                 'that the model slicer meets the slice specification (SubStore + CoverRoots) is PROVED (slicer_meets_spec) for tries with unique '
+                 'children keys and is_entity_type annotations that agree with the data; both are proved for manifests (manifestOfExpr_wf, '
+                 'toTypedRoots_wf, flagsRoots_typed, coverRoots_untyped) under: record types with unique attribute names (TypesUK) and data that '
+                 'conforms to the schema as far as the tries look (ConfRoots: no undeclared attribute under a typed node, records only at record '
+                 'types; sound executable checker confRootsB); the derivation of ConfRoots from C11 conformance and of SafeOps from C03 type '
+                 'soundness is NOT proved (full_statement_of_fragment states exactly these two obligations); the specification is still also '
+                 'checked on every sampled slice (driver op mspec)',
                  'the typed AST of each policy per request environment, the resolved schema and to_typed input are taken from Rust '
-                 '(Typechecker::typecheck_by_request_env, ValidatorSchema); to_typed pruning is mirrored and diffed but not part of the proof',
+                 '(Typechecker::typecheck_by_request_env, ValidatorSchema); to_typed is mirrored, diffed and part of the end-to-end proof (response_sliced_static)',
                  'the analysis rejects policies with tags (UnsupportedCedarFeature): outside the property by construction, counted '
                  '(manifest_error:unsupported-feature)',
                  'KNOWN FINDINGS (known_findings.jsonl): the property FAILS on the implementation (a) in request environments where the policy is typed '
@@ -41,11 +52,14 @@ TEXT = ('Lean model (Cedar/Manifest.lean) mirroring entity_manifest.rs + analysi
  'and entities, && || !, if producing entities that are dereferenced, unary -, isEmpty, == < <= + - *, in with ancestors tries, contains*, like, is; '
  'binary operands not records), soundness of the analysis: every store that is a '
  'sub-store of the full store and covers the trie computed by manifestOfExpr evaluates the expression as the full store does, lifted to the whole '
- 'authorizer response (decision, reasons, erroring policies) and via C01 to the decision characterisation. NOT proved: that the slicer meets the '
- 'sub-store/cover specification (checked on every sampled slice by sound executable checkers), record and set literals, == on records, '
- 'extension calls, to_typed. The statement on the implementation (authorization over slice_entities == over the full store) is searched on generated '
+ 'authorizer response (decision, reasons, erroring policies) and via C01 to the decision characterisation; THE SLICER MEETS THAT SPECIFICATION '
+ '(slicer_meets_spec: sub-store + cover for slice_entity/slice_val on pruned tries, the loading loop, merge of slices, ancestors), composed with '
+ 'to_typed and the analysis into response_sliced_static: for static policies in the fragment the response over sliceStore(manifest) equals the '
+ 'response over the full store, for data conforming to the schema as far as the tries look (ConfRoots); full_statement_of_fragment reduces the '
+ 'full statement (exclusions: typed-False environments, templates, tags, unknowns, slicer failure exits) to fragment coverage + the C03/C11 links. '
+ 'NOT proved: record and set literals, == on records, extension calls; ConfRoots from C11 conformance, SafeOps from C03 type soundness. The statement on the implementation (authorization over slice_entities == over the full store) is searched on generated '
  'schema worlds with manifest-stressing policy families; two classes of genuine failures are recorded as known findings (typed-False environments; '
  'template slots).',
- 'proof over a hand-written model for a stated fragment and relative to a slice specification; the slicer/specification link and the remaining constructs '
+ 'proof over a hand-written model for a stated fragment (analysis + to_typed + slicer + authorizer composed); the remaining constructs '
  'are sampled (generators in harness/src/c17.rs, gen_typed.rs, gen_schema.rs); typed ASTs and the resolved schema are serialised from Rust; the property '
  'does not hold on the unchanged tree for the two recorded classes of inputs')
